@@ -133,4 +133,22 @@ theorem identity_block_kron (m n : Type) [Fintype m] [Fintype n] [DecidableEq m]
 theorem prod_flatten_rule {M : Type} [Monoid M] (l : List (List M)) : l.flatten.prod = (l.map List.prod).prod :=
   List.prod_flatten
 
+/- C07 induction step: the matrix algebra behind the re-association shortcuts of the gate wrappers (`props/C07struct.py`): adjoint twice, adjoint of an integer
+    power and of an exponential, adjoint and integer power of a block-diagonal matrix (block-wise). -/
+section C07
+set_option linter.unusedSectionVars false
+variable {n m : Type} [Fintype n] [DecidableEq n] [Fintype m] [DecidableEq m]
+theorem adj_adj (M : Matrix n n ℂ) : M.conjTranspose.conjTranspose = M := Matrix.conjTranspose_conjTranspose M
+theorem adj_pow (M : Matrix n n ℂ) (k : ℕ) : (M ^ k).conjTranspose = M.conjTranspose ^ k := Matrix.conjTranspose_pow M k
+theorem adj_exp (M : Matrix n n ℂ) : (NormedSpace.exp M).conjTranspose = NormedSpace.exp M.conjTranspose := (Matrix.exp_conjTranspose M).symm
+theorem adj_block (A : Matrix m m ℂ) (M : Matrix n n ℂ) :
+    (Matrix.fromBlocks A 0 0 M).conjTranspose = Matrix.fromBlocks A.conjTranspose 0 0 M.conjTranspose := by
+  rw [Matrix.fromBlocks_conjTranspose]; simp
+theorem pow_block (A : Matrix m m ℂ) (M : Matrix n n ℂ) (k : ℕ) :
+    (Matrix.fromBlocks A 0 0 M) ^ k = Matrix.fromBlocks (A ^ k) 0 0 (M ^ k) := by
+  induction k with
+  | zero => simp [Matrix.fromBlocks_one]
+  | succ k ih => rw [pow_succ, ih, pow_succ, pow_succ, Matrix.fromBlocks_multiply]; simp
+end C07
+
 end VerifPrelude
